@@ -1,4 +1,4 @@
-"""Resume.tla - scanning generators over a file handle the caller owns (run as part of C15 and C17).
+"""Resume.tla - scanning generators over a file handle the caller owns (run as part of C09, C15 and C17).
 
 TLC checks that a scanner which goes back to its own offset when it is resumed reports exactly the hits whatever the caller does with the
 handle between two results, and rejects the scanner that continues from wherever the handle is (TRUSTPOS).  The caller's moves along the
@@ -78,6 +78,17 @@ def resume_part(ctx, prop):
         data = bytes(f)
         entries.append(("iter_artifactkit_payloads", data, lambda fh: artifact.iter_artifactkit_payloads(fh), lambda p: (p.offset, p.size, bytes(p.xorkey), bytes(p.payload))))
         entries.append(("iter_artifactkit_payloads(start_offset=None)", data, lambda fh: artifact.iter_artifactkit_payloads(fh, start_offset=None), lambda p: (p.offset, p.size, bytes(p.payload))))
+    if prop == "C09":
+        from dissect.cobaltstrike import xordecode
+
+        n_ = 900
+        f = bytearray(rng.randrange(1, 255) for _ in range(n_))
+        for pos in (3, 120, 121 + 8, 700):
+            nonce = rng.randbytes(4)
+            f[pos:pos + 8] = nonce + bytes(a ^ b for a, b in zip(nonce, struct.pack("<I", n_ - pos - 8)))
+        data = bytes(f)
+        entries.append(("iter_nonce_offsets", data, lambda fh: xordecode.iter_nonce_offsets(fh), int))
+        entries.append(("iter_nonce_offsets(real_size=)", data, lambda fh: xordecode.iter_nonce_offsets(fh, real_size=n_, maxrange=800), int))
     if prop == "C17":
         body = tlv.block(tlv.http_config(b"\x30" * 162))[:1200].rstrip(b"\x00")
         areas = []
